@@ -208,8 +208,16 @@ class Check(FormulaCheck):
             k = rnd.randint(1, n)
             g = self.ev('LARGE({%s},%d)' % (','.join(L(x) for x in xs), k))
             self.expect('C11/LARGE:differs-from-definition', finite(g) and close(g, sorted(map(Fr, xs), reverse=True)[k - 1]), items=xs, k=k, got=g)
-            g = self.ev('LARGE(v_list,v_k)', v_list=list(xs), v_k=k)
+            host_list = list(xs)
+            g = self.ev('LARGE(v_list,v_k)', v_list=host_list, v_k=k)
             self.expect('C11/LARGE:differs-from-definition', finite(g) and close(g, sorted(map(Fr, xs), reverse=True)[k - 1]), items=xs, k=k, got=g, host=True)
+            # ... and the items are still in the host's order: a later aggregate that pairs them with criteria cells by position sees the same list
+            self.expect('C11/host-list-reordered-by-an-aggregate:LARGE', host_list == list(xs), before=xs, after=host_list)
+            if n >= 2:
+                crit = [i % 2 for i in range(n)]
+                g = self.ev('LARGE(v_list,1)+SUMIFS(v_list,v_crit,"1")*0+SUMIFS(v_list,v_crit,"1")', v_list=host_list, v_crit=crit)
+                ref = max(map(Fr, xs)) + sum(Fr(x) for x, c in zip(xs, crit) if c == 1)
+                self.expect('C11/SUMIFS-after-LARGE-on-the-same-host-list', near(g, ref, data_tolerance(xs)), items=xs, got=g, expected=float(ref))
             c = collections.Counter(xs).most_common(2)
             if len(c) == 1 or c[0][1] > c[1][1]:
                 for fn in ('MODE', 'MODE.SNGL'):
